@@ -101,6 +101,10 @@ def test_phase(rng, fmt, ch, F, filehex, nops, sr=8000, raw_fmt=None):
     """random read/seek history on a fresh read handle; every op is followed by a position probe"""
     lines = ["store s0 " + filehex]
     raw = fmt.major == 0x04
+    if raw_bw(fmt, ch) and F > 0:
+        # reference stream for sf_read_raw: one sequential raw read of the whole file through a separate handle (abslean.py)
+        lines.append(("open h1 s0 r fmt=%08x ch=%d sr=%d" % (fmt.word, ch, sr)) if raw else "open h1 s0 r")
+        lines += ["rraw h1 %d" % (F * raw_bw(fmt, ch)), "close h1"]
     lines.append(("open h0 s0 r fmt=%08x ch=%d sr=%d" % (fmt.word, ch, sr)) if raw else "open h0 s0 r")
     b = BLOCK_HINT.get(fmt.codec, 1)
     if fmt.major == 0x11:
@@ -178,6 +182,11 @@ def test_phase(rng, fmt, ch, F, filehex, nops, sr=8000, raw_fmt=None):
     return "\n".join(lines) + "\n"
 
 
+def test_start(sl):
+    """index of the first judged line of a test-phase script: the one after `open h0`"""
+    return next(i for i, l in enumerate(sl) if l.startswith("open h0")) + 1
+
+
 def check_test_phase(script, lines, ch, F, ref, seekable=True, bw=None, filehex=None):
     """returns list of (line index, text) problems"""
     sl = script.strip().split("\n")
@@ -188,7 +197,8 @@ def check_test_phase(script, lines, ch, F, ref, seekable=True, bw=None, filehex=
     if len(lines) < len(sl):
         last = lines[-1] if lines else ""
         probs.append((len(lines) - 1, "transcript ends early: %s" % ([l for l in lines if l.startswith(("CRASH", "ABORT", "TIMEOUT"))] or last), "crash"))
-    for k in range(2, min(len(sl), len(lines))):
+    start = test_start(sl)
+    for k in range(start, min(len(sl), len(lines))):
         op, out = sl[k], lines[k]
         if op.startswith("close"):
             if out.strip() != "ret=0":
@@ -200,7 +210,7 @@ def check_test_phase(script, lines, ch, F, ref, seekable=True, bw=None, filehex=
             if kv.get("ret") != "-1" or kv.get("err") == "0":
                 probs.append((k, "handle reports seekable=0 but sf_seek returned %s err=%s" % (kv.get("ret"), kv.get("err")), "seek"))
             continue
-        if op == "seek h0 0 1" and k >= 3 and not sl[k - 1].startswith("seek h0 0 1"):
+        if op == "seek h0 0 1" and k > start and not sl[k - 1].startswith("seek h0 0 1"):
             # position probe
             kv = abscheck.parse_kv(out)
             if int(kv.get("ret", -999)) != chk.pos:
